@@ -28,6 +28,10 @@ type Scanner struct {
 	lastDirectiveParameters []*Lexeme
 	curIndex                bytes.Index
 	dataSize                bytes.Index
+
+	// afterContextOpen is true while the last lexeme reported is an opening
+	// parenthesis: another one cannot follow it, it would belong to no directive.
+	afterContextOpen bool
 }
 
 func NewJApiScanner(file *fs.File) *Scanner {
@@ -128,12 +132,17 @@ func (s *Scanner) processLexemeEvent(lexEvent LexemeEvent) (*Lexeme, *jerr.JApiE
 			startType == EnumBegin && eventType == EnumEnd:
 
 			lex := NewLexeme(eventType.ToLexemeType(), startEvent.position, lexEvent.position, s.file)
+			s.afterContextOpen = false
 
 			return lex, nil
 		default:
 			return nil, s.japiErrorBasic("Ending lexeme event does not match beginning event")
 		}
 	case eventType.IsSingle():
+		if eventType == ContextOpen && s.afterContextOpen {
+			return nil, s.japiError(jerr.NoDirectiveForLexeme, lexEvent.position)
+		}
+		s.afterContextOpen = eventType == ContextOpen
 		lex := NewLexeme(eventType.ToLexemeType(), lexEvent.position, lexEvent.position, s.file)
 		return lex, nil
 	default:
